@@ -162,34 +162,64 @@ class Row:
 
 
 def inotify_event_implications(P: Program) -> list[tuple[str, str]]:
-    """`is_directory` is `is_delete_self or is_move_self or ISDIR`: read X => is_directory from the property body."""
-    out = []
+    """X => is_directory for every kind predicate X whose bits all make is_directory true (DELETE_SELF, MOVE_SELF): read from the
+    predicates' truth tables (inotify_predicate_tables), however is_directory is spelled."""
     ci = P.cls("InotifyEvent")
-    fi = ci.methods.get("is_directory")
-    if fi is None:
+    if "is_directory" not in ci.methods:
         raise AnalysisError("anchor vanished: InotifyEvent.is_directory")
-    for n in ast.walk(fi.node):
-        if isinstance(n, ast.Return) and isinstance(n.value, ast.BoolOp) and isinstance(n.value.op, ast.Or):
-            for v in n.value.values:
-                if isinstance(v, ast.Attribute) and isinstance(v.value, ast.Name) and v.value.id == "self":
-                    out.append((v.attr, "is_directory"))
+    tabs = inotify_predicate_tables(P)
+    d = tabs.get("is_directory")
+    if not d:
+        raise AnalysisError("InotifyEvent.is_directory could not be evaluated abstractly")
+    out = []
+    for name, tab in sorted(tabs.items()):
+        if name == "is_directory":
+            continue
+        bits = [m for m, v in tab.items() if v and m]
+        if bits and all(d.get(m) for m in bits):
+            out.append((name, "is_directory"))
+    return out
+
+
+def inotify_predicate_tables(P: Program) -> dict[str, dict[int, object]]:
+    """InotifyEvent.is_<x> -> {mask: value} over the masks 0 and every single IN_* bit: each property's getter evaluated abstractly
+    (sa/minieval.py: integers, bit operations, comparisons, boolean operators, helper methods and other properties of the same
+    object) with `self._mask` set to that mask.  However the test is spelled -- `self._mask & C > 0`, a helper `self._has(C)`, a
+    combined mask -- the table says which bits make it true."""
+    from .minieval import MiniEval
+
+    ci = P.cls("InotifyEvent")
+    consts = inotify_constants(P)
+    bits = sorted({v for k, v in consts.items() if k.startswith("IN_") and v and v & (v - 1) == 0})
+    out: dict[str, dict[int, object]] = {}
+    for name, fi in ci.methods.items():
+        if not name.startswith("is_") or not any(isinstance(d, ast.Name) and d.id == "property" for d in fi.node.decorator_list):
+            continue
+        tab = {}
+        for m in [0, *bits]:
+            try:
+                tab[m] = MiniEval(P, ci.module, ci, {"self._mask": m}).call_function(fi.node, {"self": None})
+            except AnalysisError:
+                tab = {}
+                break
+        if tab:
+            out[name] = tab
     return out
 
 
 def inotify_flag_of_property(P: Program) -> dict[str, int]:
-    """InotifyEvent property name -> mask it tests (`self._mask & InotifyConstants.X > 0`), folded to int."""
-    ci = P.cls("InotifyEvent")
+    """InotifyEvent property name -> the mask it tests: the union of the single bits that make its getter true (see
+    inotify_predicate_tables).  Only properties that are false on the empty mask and decided by the bits alone are listed."""
     out = {}
-    for name, fi in ci.methods.items():
-        if not name.startswith("is_"):
+    for name, tab in inotify_predicate_tables(P).items():
+        if tab.get(0) is not False or not all(isinstance(v, bool) for v in tab.values()):
             continue
-        for n in ast.walk(fi.node):
-            if isinstance(n, ast.Return) and isinstance(n.value, ast.Compare):
-                left = n.value.left
-                if isinstance(left, ast.BinOp) and isinstance(left.op, ast.BitAnd):
-                    v = P.fold(left.right, ci.module, ci)
-                    if isinstance(v, int):
-                        out[name] = v
+        m = 0
+        for b, v in tab.items():
+            if v:
+                m |= b
+        if m:
+            out[name] = m
     return out
 
 
